@@ -464,7 +464,19 @@ fn gen_cache(rng: &mut Rng, thorough: bool, churn: bool) -> Hist {
                         let with_code = rng.chance(3, 4);
                         let ni = AccountInfo { balance: info.as_ref().map(|i| i.balance).unwrap_or_default().saturating_add(U256::from(rng.below(3))), nonce: 1,
                             code_hash: if with_code { c.hash_slow() } else { KECCAK_EMPTY }, code: if with_code { Some(c) } else { Some(Bytecode::default()) } };
-                        let st = mk_storage(rng, &cur, true);
+                        let mut ni = ni;
+                        let mut st = mk_storage(rng, &cur, true);
+                        // churn: sometimes the new incarnation is exactly the account of the pre-state (same balance,
+                        // nonce, code) and its constructor writes nothing: the only thing that changed is the wiped storage
+                        if churn && rng.chance(1, 3) {
+                            if let Some(old) = p0.info(&a) {
+                                if let Some(c0) = codes.iter().find(|c| c.hash_slow() == old.code_hash) {
+                                    ni = AccountInfo { balance: old.balance, nonce: old.nonce, code_hash: old.code_hash, code: Some(c0.clone()) };
+                                    st = HashMap::default();
+                                    tags.push("op:recreated-identical".into());
+                                }
+                            }
+                        }
                         cur.0.remove(&a);
                         cur.set_info(a, &ni);
                         for (k, s) in st.iter() { cur.set_slot(a, *k, s.present_value); }
